@@ -7,6 +7,8 @@
 #include "vasm16.hpp"
 #include <kernel/assembly/burgers_assembler.hpp>
 #include <kernel/assembly/burgers_assembly_job.hpp>
+#include <kernel/assembly/gpdv_assembler.hpp>
+#include <kernel/assembly/grad_operator_assembler.hpp>
 #include <kernel/lafem/sparse_matrix_bcsr.hpp>
 #include <kernel/lafem/dense_vector_blocked.hpp>
 #if C16_VOXEL
@@ -439,6 +441,101 @@ namespace va
     return out;
   }
 
+  // -------------------------------------------------------------------------------------------------------
+  // gradient / divergence special assemblers on a velocity/pressure pair (test = velocity, trial = pressure)
+  // -------------------------------------------------------------------------------------------------------
+  template<class W_, class VS_, class PS_>
+  vj::Value run_gd_pair(const vj::Value& c, W_& w)
+  {
+    typedef typename VS_::Type Velo; typedef typename PS_::Type Pres;
+    constexpr int dim = W_::dim;
+    typedef LAFEM::SparseMatrixBCSR<DT, IT, dim, 1> MatB;
+    typedef LAFEM::SparseMatrixBCSR<DT, IT, 1, dim> MatD;
+    Velo velo(*w.trafo); Pres pres(*w.trafo);
+    vj::Value out = vj::Value::object();
+    for(const char* k : {"id", "shape", "dim", "class", "test", "trial"}) out[k] = c[k];
+    dump_mesh_min(w, out);
+    out["nt"] = vj::Value((long long)velo.get_num_dofs());
+    out["nr"] = vj::Value((long long)pres.get_num_dofs());
+    out["td"] = jdofs(velo);
+    out["rd"] = jdofs(pres);
+    out["pats"] = vj::Value::array();
+    Mat pattern;
+    Assembly::SymbolicAssembler::assemble_matrix_std2(pattern, velo, pres);
+    const SpaceInfo ti = space_info(velo, 6, true), ri = space_info(pres, 6, std::string(PS_::name()) != "disc0");
+    const double mag = op_mag("testderiv", ti, ri, 1.0);
+    const Index nnz = pattern.used_elements();
+
+    vj::Value jobs = vj::Value::array();
+    const vj::Value& jl = c["jobs"];
+    for(std::size_t q = 0; q < jl.size(); ++q)
+    {
+      const vj::Value& job = jl[q];
+      if(job["k"].as_str() != "gd") throw std::runtime_error("only gd jobs on mixed pairs in the special harness");
+      Cubature::DynamicFactory cf("auto-degree:" + stringify(job["deg"].as_int()));
+      // the scalar matrices S_m = int p d_m v on the classic route
+      std::vector<Mat> S;
+      for(int m = 0; m < dim; ++m)
+      {
+        Mat a = pattern.clone(LAFEM::CloneMode::Layout); a.format();
+        Assembly::Common::TestDerivativeOperator op(int(job["blk"][std::size_t(m)]["p"][0].as_int()));
+        if(job["blk"][std::size_t(m)]["name"].as_str() != "testderiv") throw std::runtime_error("gd job: unexpected block operator");
+        Assembly::BilinearOperatorAssembler::assemble_matrix2(a, op, velo, pres, cf, DT(1));
+        S.push_back(std::move(a));
+      }
+      auto s_at = [&](int m, Index i, Index j) -> double
+      {
+        for(IT k = pattern.row_ptr()[i]; k < pattern.row_ptr()[i + 1]; ++k) if(pattern.col_ind()[k] == j) return S[std::size_t(m)].val()[k];
+        return 0.0;
+      };
+      vj::Value sc = vj::Value::array();
+      const vj::Value& sl = job["scales"];
+      for(std::size_t z = 0; z < sl.size(); ++z)
+      {
+        const DT sb = DT(sl[z][0].as_int()) / DT(2), sd = DT(sl[z][1].as_int()) / DT(2);
+        const double tol = 2 * CK * EPS * mag * std::max(1.0, std::max(std::fabs(sb), std::fabs(sd)));
+        MatB B; MatD D;
+        Assembly::GradPresDivVeloAssembler::assemble(B, D, velo, pres, cf, sb, sd);
+        vj::Value o = vj::Value::object();
+        // B_m = sb * S_m (same graph std2(V, P), same order)
+        double mb = (B.used_elements() == nnz) ? 0.0 : HUGE_VAL;
+        if(mb == 0.0)
+          for(Index k = 0; k < nnz; ++k)
+          {
+            if(B.col_ind()[k] != pattern.col_ind()[k]) mb = HUGE_VAL;
+            for(int m = 0; m < dim; ++m) mb = std::max(mb, std::fabs(B.val()[k][m][0] - sb * S[std::size_t(m)].val()[k]));
+          }
+        o["b"] = (mb <= tol); note_margin(mb, tol);
+        // D = (sd / sb) * B^T entrywise (GradDivAdjoint), through the scalar matrices: D_m(i,j) = sd * S_m(j,i)
+        double md = 0.0; Index cnt = 0;
+        for(Index i = 0; i < D.rows(); ++i)
+          for(IT k = D.row_ptr()[i]; k < D.row_ptr()[i + 1]; ++k, ++cnt)
+            for(int m = 0; m < dim; ++m) md = std::max(md, std::fabs(D.val()[k][0][m] - sd * s_at(m, D.col_ind()[k], i)));
+        if(cnt != nnz || D.rows() != pres.get_num_dofs() || D.columns() != velo.get_num_dofs()) md = HUGE_VAL;
+        o["adj"] = (md <= tol); note_margin(md, tol);
+        // GradOperatorAssembler with test = pressure, trial = velocity:  G_m(i,j) = scale * int d_m(u_j) q_i = scale * S_m(j,i)
+        MatB G;
+        Assembly::SymbolicAssembler::assemble_matrix_std2(G, pres, velo);
+        G.format();
+        Assembly::GradOperatorAssembler::assemble(G, pres, velo, cf, sd);
+        double mg = 0.0;
+        for(Index i = 0; i < G.rows(); ++i)
+          for(IT k = G.row_ptr()[i]; k < G.row_ptr()[i + 1]; ++k)
+            for(int m = 0; m < dim; ++m) mg = std::max(mg, std::fabs(G.val()[k][m][0] - sd * s_at(m, G.col_ind()[k], i)));
+        o["g"] = (mg <= tol); note_margin(mg, tol);
+        sc.push(o);
+      }
+      vj::Value j = vj::Value::object(), obs = vj::Value::object();
+      obs["sc"] = sc;
+      bool nz = false; for(int m = 0; m < dim; ++m) for(Index k = 0; k < nnz; ++k) if(S[std::size_t(m)].val()[k] != 0.0) nz = true;
+      obs["nz"] = nz;
+      j["spec"] = job; j["obs"] = obs;
+      jobs.push(j);
+    }
+    out["jobs"] = jobs;
+    return out;
+  }
+
   template<class Shape_>
   vj::Value run_special_case(const vj::Value& c)
   {
@@ -447,10 +544,12 @@ namespace va
     g_margin = 0.0;
     W w;
     w.build(c["mesh"]);
-    if(c["test"].as_str() != c["trial"].as_str()) throw std::runtime_error("special routes need test = trial");
-    const std::string s = c["test"].as_str();
+    const std::string s = c["test"].as_str(), t = c["trial"].as_str();
     vj::Value out;
-    if(s == "lagrange1") out = run_special_space<W, SpL1<Trafo>>(c, w);
+    if(s == "lagrange2" && t == "disc1") out = run_gd_pair<W, SpL2<Trafo>, SpD1<Trafo>>(c, w);
+    else if(s == "crrt" && t == "disc0") out = run_gd_pair<W, SpCR<Trafo>, SpD0<Trafo>>(c, w);
+    else if(s != t) throw std::runtime_error("pair " + s + "/" + t + " is not compiled into the special-route harness");
+    else if(s == "lagrange1") out = run_special_space<W, SpL1<Trafo>>(c, w);
     else if(s == "lagrange2") out = run_special_space<W, SpL2<Trafo>>(c, w);
     else if(s == "crrt") out = run_special_space<W, SpCR<Trafo>>(c, w);
     else throw std::runtime_error("space " + s + " is not compiled into the special-route harness");
